@@ -75,7 +75,7 @@ func init() {
 	register("C14", func(c *engine.Ctx) {
 		c.Rule = "function level: Identifierize (real, through the verif export shim) vs the model on every sequence of rune classes {lower with upper image, lower without, upper, caseless letter, decimal digit, other numeral, delimiter} up to length 5 (6 in thorough) realised with representative runes, with and without capitalizations chosen to equal a part, plus random Unicode strings; judged: inside the hypotheses of the theorem ident_valid (every rune satisfies TableOK: cased ⇒ letter, numeral ⇒ decimal digit, the upper image of a letter/digit is a letter/digit and not lower-case-only) the result is a valid exported Go identifier. TableOK is evaluated for all 1,114,112 code points (exceptions counted) and for every admitted code point the real function is run on three names containing it. Program level: sibling names that collide after normalisation (2..6 per set) and type-name collisions (up to 4) must give distinct field / type names, tags with the exact names, and a decode that binds every key to its own field; key fidelity: every punctuation character encoding/json admits in a tag name (28) inside / before / after letters, and names that look like format verbs, template actions or escapes (%s, 100%, %%, {{.}}, $1), required and optional, must round-trip. Distinct = distinct (class sequence, capitalization kind) / collision sets."
 		c.Proofs([]string{"GJS.Props.C14"}, []string{
-			"GJS.Props.C14.splitIdent_spec", "GJS.Props.C14.ident_valid", "GJS.Props.C14.ident_valid_caps", "GJS.Props.C14.never_empty", "GJS.Props.C14.leading_repair", "GJS.Props.C14.leading_kept",
+			"GJS.Props.C14.splitIdent_spec", "GJS.Props.C14.ident_valid", "GJS.Props.C14.ident_valid_caps", "GJS.Props.C14.field_names_distinct", "GJS.Props.C14.sfx_inj", "GJS.Props.C14.KF_user_identifier_collides", "GJS.Props.C14.never_empty", "GJS.Props.C14.leading_repair", "GJS.Props.C14.leading_kept",
 			"GJS.Props.C14.capitalize_plain", "GJS.Props.C14.tag_is_raw_name", "GJS.Props.C14.probeName_fresh", "GJS.Props.C14.KF_no_upper_image",
 		})
 		fails := 0
